@@ -280,12 +280,13 @@ type procCfg struct {
 }
 
 type procResult struct {
-	Sim     *simrt.Sim
-	LoadErr error
-	RunErr  error
-	Loaded  bool
-	Ran     bool
-	Proj    *Project
+	Sim         *simrt.Sim
+	LoadErr     error
+	RunErr      error
+	Loaded      bool
+	Ran         bool
+	FirstRunErr error
+	Proj        *Project
 }
 
 func (w *world) newSim(name string, pc procCfg, stepHook func(step int, kind, detail string)) *simrt.Sim {
@@ -350,6 +351,7 @@ func (w *world) process(name string, pc procCfg, bo buildOpts, stepHook func(ste
 		}
 		res.RunErr = proj.Run(l, &RunOptions{Always: bo.Always, DryRun: bo.DryRun})
 		if bo.SecondRun {
+			res.FirstRunErr = res.RunErr
 			res.RunErr = proj.Run(l, &RunOptions{Always: bo.Always, DryRun: bo.DryRun})
 		}
 		res.Ran = true
